@@ -522,7 +522,7 @@ fn process_tags(
                 // elements for reuse.
                 if let Ok((events, maybe_bbox)) = gen_result {
                     if el.is_some() {
-                        context.note_resolved(&idx);
+                        context.note_resolved();
                     }
                     if let Some(bbox) = maybe_bbox {
                         bbb.extend(bbox); // TODO: should this pattern take an Option?
